@@ -230,7 +230,7 @@ class SGen(object):
             else:
                 self.f('rtf')
                 s = '<xsl:variable name="%s">%s</xsl:variable>' % (name, self.body(max(depth - 1, 0), scope))
-                scope[name] = 'str'      # an RTF is usable wherever a string is
+                scope[name] = 'rtf'      # usable wherever a string is (gen_xpath.var), and compared like a node-set
             return s
         if k < 0.8:
             self.f('copy-of')
